@@ -119,25 +119,25 @@ theorem biScanP_toB (lim : Option Int) (u : Nat) (du : Int) : ∀ (l : List (Nat
     · rw [if_pos ((limTest lim _).2 hb), if_pos ((limB_iff lim _).2 hb)]
       exact biScanP_toB lim u du r st
 
-theorem biLoopP_succ (adjE : Array (List (Nat × Int × Nat))) (lim : Option Int) (pick : List Nat → Nat) (fuel : Nat)
+theorem biLoopP_succ (adjE : Array (List (Nat × Int × Nat))) (lim : Option Int) (pick : Pick) (fuel : Nat)
     (st : BiStateP) :
     biLoopP adjE pick lim (fuel + 1) st =
       if stopB (toB st) then some st
-      else match st.f.dist[pick st.f.toF.minNodes]! with
+      else match st.f.dist[pick fuel st.f.toF.minNodes]! with
         | none => some st
         | some du =>
           if limB lim du then none
           else biLoopP adjE pick lim fuel
-            { f := (biScanP lim (pick st.f.toF.minNodes) du adjE[pick st.f.toF.minNodes]!
-                      { st with f := { st.f with queue := st.f.queue.erase (pick st.f.toF.minNodes) } }).b,
-              b := (biScanP lim (pick st.f.toF.minNodes) du adjE[pick st.f.toF.minNodes]!
-                      { st with f := { st.f with queue := st.f.queue.erase (pick st.f.toF.minNodes) } }).f,
-              best := (biScanP lim (pick st.f.toF.minNodes) du adjE[pick st.f.toF.minNodes]!
-                      { st with f := { st.f with queue := st.f.queue.erase (pick st.f.toF.minNodes) } }).best,
-              common := (biScanP lim (pick st.f.toF.minNodes) du adjE[pick st.f.toF.minNodes]!
-                      { st with f := { st.f with queue := st.f.queue.erase (pick st.f.toF.minNodes) } }).common } := rfl
+            { f := (biScanP lim (pick fuel st.f.toF.minNodes) du adjE[pick fuel st.f.toF.minNodes]!
+                      { st with f := { st.f with queue := st.f.queue.erase (pick fuel st.f.toF.minNodes) } }).b,
+              b := (biScanP lim (pick fuel st.f.toF.minNodes) du adjE[pick fuel st.f.toF.minNodes]!
+                      { st with f := { st.f with queue := st.f.queue.erase (pick fuel st.f.toF.minNodes) } }).f,
+              best := (biScanP lim (pick fuel st.f.toF.minNodes) du adjE[pick fuel st.f.toF.minNodes]!
+                      { st with f := { st.f with queue := st.f.queue.erase (pick fuel st.f.toF.minNodes) } }).best,
+              common := (biScanP lim (pick fuel st.f.toF.minNodes) du adjE[pick fuel st.f.toF.minNodes]!
+                      { st with f := { st.f with queue := st.f.queue.erase (pick fuel st.f.toF.minNodes) } }).common } := rfl
 
-theorem biLoopP_toB (adjE : Array (List (Nat × Int × Nat))) (lim : Option Int) (pick : List Nat → Nat) :
+theorem biLoopP_toB (adjE : Array (List (Nat × Int × Nat))) (lim : Option Int) (pick : Pick) :
     ∀ (fuel : Nat) (st : BiStateP),
       (biLoopP adjE pick lim fuel st).map (fun s => s.best) = biLoop (projAdj adjE) pick lim fuel (toB st)
   | 0, st => rfl
@@ -146,8 +146,8 @@ theorem biLoopP_toB (adjE : Array (List (Nat × Int × Nat))) (lim : Option Int)
     by_cases hs : stopB (toB st) = true
     · rw [if_pos hs, if_pos hs]; rfl
     · rw [if_neg hs, if_neg hs]
-      show _ = match st.f.dist[pick st.f.toF.minNodes]! with | none => _ | some du => _
-      cases st.f.dist[pick st.f.toF.minNodes]! with
+      show _ = match st.f.dist[pick fuel st.f.toF.minNodes]! with | none => _ | some du => _
+      cases st.f.dist[pick fuel st.f.toF.minNodes]! with
       | none => rfl
       | some du =>
         simp only []
@@ -157,8 +157,8 @@ theorem biLoopP_toB (adjE : Array (List (Nat × Int × Nat))) (lim : Option Int)
             if_neg (fun hh => (limB_iff lim _).1 hh (Classical.not_not.1 hb)),
             biLoopP_toB adjE lim pick fuel, projAdj_get]
           congr 1
-          have := biScanP_toB lim (pick st.f.toF.minNodes) du adjE[pick st.f.toF.minNodes]!
-            { st with f := { st.f with queue := st.f.queue.erase (pick st.f.toF.minNodes) } }
+          have := biScanP_toB lim (pick fuel st.f.toF.minNodes) du adjE[pick fuel st.f.toF.minNodes]!
+            { st with f := { st.f with queue := st.f.queue.erase (pick fuel st.f.toF.minNodes) } }
           exact congrArg (fun (y : BiState) => BiState.mk y.b y.f y.best) this
 theorem get_setG {α : Type} (a : Array (Option α)) (i j : Nat) (x : Option α) :
     (a.set! i x)[j]! = if i = j ∧ i < a.size then x else a[j]! := by
@@ -337,7 +337,7 @@ theorem scan_tinv {wOf : Nat → Int} (hE : AdjEOK adjE wOf) {lim : Option Int} 
           rw [h3]
           exact ⟨a, dbw, ha, h1, by omega⟩
 
-theorem loop_tinv {wOf : Nat → Int} (hE : AdjEOK adjE wOf) {lim : Option Int} (pick : List Nat → Nat) :
+theorem loop_tinv {wOf : Nat → Int} (hE : AdjEOK adjE wOf) {lim : Option Int} (pick : Pick) :
     ∀ (fuel : Nat) (s t : Nat) (st : BiStateP), TInv adjE s t st → ∀ st', biLoopP adjE pick lim fuel st = some st' →
       TInv adjE s t st' ∨ TInv adjE t s st'
   | 0, s, t, st, h, st', hres => by
@@ -348,7 +348,7 @@ theorem loop_tinv {wOf : Nat → Int} (hE : AdjEOK adjE wOf) {lim : Option Int} 
     · rw [if_pos hs] at hres
       cases hres; exact Or.inl h
     · rw [if_neg hs] at hres
-      cases hd : st.f.dist[pick st.f.toF.minNodes]! with
+      cases hd : st.f.dist[pick fuel st.f.toF.minNodes]! with
       | none =>
         rw [hd] at hres
         cases hres; exact Or.inl h
@@ -358,10 +358,10 @@ theorem loop_tinv {wOf : Nat → Int} (hE : AdjEOK adjE wOf) {lim : Option Int} 
         by_cases hb : limB lim du = true
         · rw [if_pos hb] at hres; cases hres
         · rw [if_neg hb] at hres
-          have h1 : TInv adjE s t { st with f := { st.f with queue := st.f.queue.erase (pick st.f.toF.minNodes) } } :=
+          have h1 : TInv adjE s t { st with f := { st.f with queue := st.f.queue.erase (pick fuel st.f.toF.minNodes) } } :=
             ⟨h.f.queue _, h.b, h.com⟩
-          have h2 := scan_tinv hE (lim := lim) (du := du) adjE[pick st.f.toF.minNodes]!
-            { st with f := { st.f with queue := st.f.queue.erase (pick st.f.toF.minNodes) } } (fun p hp => hp)
+          have h2 := scan_tinv hE (lim := lim) (du := du) adjE[pick fuel st.f.toF.minNodes]!
+            { st with f := { st.f with queue := st.f.queue.erase (pick fuel st.f.toF.minNodes) } } (fun p hp => hp)
             ⟨du, hd, Int.le_refl _⟩ h1
           have h3 := loop_tinv hE pick fuel t s _ ⟨h2.b, h2.f, fun β hβ => by
             obtain ⟨a, b, g1, g2, g3⟩ := h2.com β hβ
@@ -578,14 +578,14 @@ def finishP (adjE : Array (List (Nat × Int × Nat))) (wOf : Nat → Int) (lim :
         | none => none
         | some acc2 => some ((acc2.map wOf).sum, setOf acc2)
 
-theorem biSearch_eq (pick : List Nat → Nat) (wOf : Nat → Int) (lim : Option Int) (s t : Nat) :
+theorem biSearch_eq (pick : Pick) (wOf : Nat → Int) (lim : Option Int) (s t : Nat) :
     biSearch adjE pick wOf lim s t =
       match biLoopP adjE pick lim (2 * adjE.size + 2)
         { f := FrontierP.init adjE.size s, b := FrontierP.init adjE.size t, best := none, common := 0 } with
       | none => none
       | some st => finishP adjE wOf lim st := rfl
 
-theorem biDijkstra_P (pick : List Nat → Nat) (lim : Option Int) (s t : Nat) :
+theorem biDijkstra_P (pick : Pick) (lim : Option Int) (s t : Nat) :
     biDijkstra (projAdj adjE) pick lim s t = finish lim ((biLoopP adjE pick lim (2 * adjE.size + 2)
       { f := FrontierP.init adjE.size s, b := FrontierP.init adjE.size t, best := none, common := 0 }).map
         fun s => s.best) := by
@@ -636,7 +636,7 @@ open BiDijL in
 /-- **soundness**: whatever the search returns is the edge set of a walk from `s` to `t` without repeated edge, its
 weight is the sum of the edge weights, that weight is the DISTANCE from `s` to `t`, and it is below the limit -/
 theorem biSearch_sound (adjE : Array (List (Nat × Int × Nat))) (wOf : Nat → Int) (h : AdjEOK adjE wOf)
-    (pick : List Nat → Nat) (hp : PickOK pick) (limit : Option Int) (s t : Nat)
+    (pick : Pick) (hp : PickOK pick) (limit : Option Int) (s t : Nat)
     (hs : s < adjE.size) (ht : t < adjE.size) (hst : s ≠ t) (w : Int) (Z : List Nat)
     (hres : biSearch adjE pick wOf limit s t = some (w, Z)) :
     ∃ es, EWalk adjE s t es ∧ es.Nodup ∧ Z = setOf es ∧ w = (es.map wOf).sum ∧
@@ -687,7 +687,7 @@ open BiDijL in
 /-- **completeness**: if the distance `D` from `s` to `t` is below the limit, the search returns a result of weight `D`,
 unless the shortest walk it reconstructed repeats an edge (then it returns nothing) -/
 theorem biSearch_complete (adjE : Array (List (Nat × Int × Nat))) (wOf : Nat → Int) (h : AdjEOK adjE wOf)
-    (pick : List Nat → Nat) (hp : PickOK pick) (limit : Option Int) (s t : Nat)
+    (pick : Pick) (hp : PickOK pick) (limit : Option Int) (s t : Nat)
     (hs : s < adjE.size) (ht : t < adjE.size) (hst : s ≠ t) (D : Int)
     (hD : IsDist (projAdj adjE) s t D) (hl : Below limit D) :
     (∃ Z, biSearch adjE pick wOf limit s t = some (D, Z)) ∨
